@@ -35,7 +35,7 @@ func clRefCountWrites(c *Ctx) {
 			}
 		case "CAS":
 			incs++
-			args := callOf(w.in).Args
+			args := atomicArgs(w.in)
 			old := strip(args[1])
 			// the expected value is an atomic load of the field (possibly carried by a loop variable
 			// all of whose definitions are such loads)
